@@ -347,16 +347,48 @@ def check(model, rep, tier):
             'code objects must be held weakly, so that a redefined / collected '
             'function is never served stale code', line=binit.node.lineno)
   for m in ('has', '__getitem__'):
-    fi = base.methods[m]
+    fi0 = base.methods[m]
+    # (private helpers expanded: the lookup may be shared by both methods)
+    fi = core.FuncInfo(fi0.module, fi0.view(keep=('_get_key',)), cls=fi0.cls)
     keys = [n for n in ast.walk(fi.node) if isinstance(n, ast.Assign) and
             core.norm(n.value) == 'self._get_key(%s)' % fi.params()[0]]
     uses = [c for c in ast.walk(fi.node) if isinstance(c, ast.Call) and
             core.norm(c.func) == 'self._cache.get']
     ok = len(keys) == 1 and all(core.norm(c.args[0]) == core.norm(
         keys[0].targets[0]) for c in uses) and bool(uses)
-    rep.check(ok, 'CACHE-KEY', '%s:uses-key-function' % fi.site,
+    rep.check(ok, 'CACHE-KEY', '%s:uses-key-function' % fi0.site,
               '%s must look the entity up under _get_key(entity)' % m,
-              line=fi.node.lineno)
+              line=fi0.node.lineno)
+    # stores into the cache dictionary, with the condition they happen under
+    stores = [a for a in ast.walk(fi.node) if isinstance(a, ast.Assign) and any(
+        isinstance(t, ast.Subscript) and core.norm(t.value) == 'self._cache'
+        for t in a.targets)] + [c for c in ast.walk(fi.node) if isinstance(c, ast.Call)
+                                and core.norm(c.func) == 'self._cache.setdefault']
+    if m == 'has':
+      rep.check(not stores, 'CACHE-LOCK', '%s:probe-is-read-only' % fi0.site,
+                'has() is the lock-free probe: it must not create (or replace) a '
+                'bucket; transform_function relies on it outside the lock',
+                {'stores': [core.norm(x)[:60] for x in stores]}, line=fi0.node.lineno,
+                witness='a second thread probing while the first stores its factory')
+    else:
+      def none_atom(e):
+        if isinstance(e, ast.Compare) and len(e.ops) == 1 and isinstance(
+            e.ops[0], ast.Is) and isinstance(e.comparators[0], ast.Constant) and \
+            e.comparators[0].value is None:
+          return 'IS_NONE'
+        return None
+      bad = []
+      for st in stores:
+        cf = formula.condition_formula(fi.node, st, none_atom)
+        if not formula.equivalent(cf, formula.atom('IS_NONE'))[0]:
+          bad.append('%s under %s' % (core.norm(st)[:40], cf))
+      rep.check(bool(stores) and not bad, 'CACHE-LOCK',
+                '%s:bucket-created-only-when-missing' % fi0.site,
+                'the per-entity bucket is created exactly when the lookup gave '
+                'None: a truthiness test also replaces a bucket that exists but '
+                'is still empty, and the value stored into the old one is lost',
+                {'stores': bad}, line=fi0.node.lineno,
+                witness='first conversion of a code object, probed by a second thread')
   gck = model.func(API, 'PyToPy.get_caching_key')
   rets = [r for r in ast.walk(gck.node) if isinstance(r, ast.Return)]
   ok = len(rets) == 1 and core.norm(rets[0].value) == gck.params()[0] + '.options'
